@@ -1,6 +1,6 @@
 (* C01 — Obfuscated builds behave exactly like regular builds (the naming part that a theorem
    can carry; the rest of the statement is exercised by the differential runs of the check). *)
-From Verif Require Import Base.Bytes Model.Flags Model.Names Model.Scope Model.Rename Model.Linkname Proofs.RenameProofs.
+From Verif Require Import Base.Bytes Model.Flags Model.Names Model.Scope Model.Rename Model.Linkname Model.Asm Proofs.RenameProofs Proofs.AsmProofs.
 From Verif Require Gen.StdTables.
 Open Scope N_scope.
 
@@ -54,6 +54,32 @@ Theorem C01_linkname_unknown_unchanged : forall lookup_pkg hname ipath intr cur_
   snd (linkname_rewrite lookup_pkg hname ipath intr cur_path cur_obf exported local new) = new.
 Proof. exact linkname_unknown_unchanged. Qed.
 
+(* assembly files (replaceAsmNames): text without a middle dot is copied unchanged *)
+Theorem C01_asm_passthrough : forall is_letter is_digit lookup_pkg hname intr cur_name cur_key cur_obf cur_ipath s,
+  existsb (N.eqb MID) s = false ->
+  replace_asm_names is_letter is_digit lookup_pkg hname intr cur_name cur_key cur_obf cur_ipath s = s.
+Proof. exact asm_passthrough. Qed.
+(* an unqualified reference  ·name  gets the hash of the package's own objects (kept for plain
+   packages and compiler intrinsics); the text before it is copied and the rest rewritten in turn *)
+Theorem C01_asm_local_reference : forall is_letter is_digit lookup_pkg hname intr cur_name cur_key cur_obf cur_ipath,
+  is_letter MID = false -> is_digit MID = false ->
+  forall pre name c post fuel,
+  existsb (N.eqb MID) pre = false ->
+  (match rev pre with [] => true | x :: _ => negb (path_rune is_letter is_digit x) end) = true ->
+  forallb (ident_rune is_letter is_digit) name = true ->
+  path_rune is_letter is_digit c = false -> c <> MID ->
+  rewrite is_letter is_digit lookup_pkg hname intr cur_name cur_key cur_obf cur_ipath (S fuel) (pre ++ MID :: name ++ c :: post) =
+  pre ++ [MID] ++ (if cur_obf && negb (intrinsic intr cur_key name) then hname cur_key name else name)
+      ++ rewrite is_letter is_digit lookup_pkg hname intr cur_name cur_key cur_obf cur_ipath fuel (c :: post).
+Proof. exact asm_local_reference. Qed.
+(* and that is the decision the Go side takes for the declaration of an ordinary package-level function *)
+Theorem C01_asm_go_agree : forall intr to_obf d,
+  o_kind d = KFunc -> o_universe d = false -> special_keep (o_pkg d) (o_name d) = false ->
+  beq (o_name d) s_main = false -> beq (o_name d) s_init = false -> beq (o_name d) s_TestMain = false ->
+  (is_prefix s_Test (o_name d) && o_test_sig d) = false ->
+  (decide intr to_obf d = HashPkg) <-> (to_obf (o_pkg d) && negb (intrinsic intr (o_pkg d) (o_name d)) = true).
+Proof. exact asm_go_agree. Qed.
+
 Print Assumptions C01_rename_preserves_resolution.
 Print Assumptions C01_rename_no_capture.
 Print Assumptions C01_interfaces_preserved.
@@ -63,3 +89,6 @@ Print Assumptions C01_tests_kept.
 Print Assumptions C01_plain_packages_kept.
 Print Assumptions C01_linkname_function_agrees.
 Print Assumptions C01_linkname_unknown_unchanged.
+Print Assumptions C01_asm_passthrough.
+Print Assumptions C01_asm_local_reference.
+Print Assumptions C01_asm_go_agree.
